@@ -1,7 +1,64 @@
-(* C17 -- property theorems.  Only statements, `exact`, and Print Assumptions. *)
-From P7 Require Import Prelude PyPrims Number.
+(* C17 -- Header values survive storage across their whole legal range.
+   This file holds only statements, `exact`, and Print Assumptions.
+   write_uint64/read_uint64/write_boolean/read_boolean/... below are the definitions in
+   coq/gen/ArchiveinfoPrims.v, regenerated from py7zr/archiveinfo.py on every run. *)
+From P7 Require Import Prelude PyPrims Number NumberGen BoolVec BoolVecGen.
+From P7gen Require Import ArchiveinfoPrims.
 Open Scope Z_scope.
 
-Example number_spec_vector : spec_number [192; 255; 255; 9] = Some (65535, [9]).
-Proof. vm_compute. reflexivity. Qed.
-Print Assumptions number_spec_vector.
+(* NUMBER: every value of 0..2^64-1 is written in 1..9 bytes that both py7zr's reader and the
+   decoder transcribed from the specification read back, with any bytes following *)
+Theorem C17_number_roundtrip : forall v, 0 <= v < 2^64 -> forall r, exists bs,
+  write_uint64 v = Ok bs /\ read_uint64 (bs ++ r) = Ok (v, r) /\
+  spec_number (bs ++ r) = Some (v, r) /\ (1 <= length bs <= 9)%nat.
+Proof. exact number_roundtrip. Qed.
+Print Assumptions C17_number_roundtrip.
+
+(* py7zr reads every specification-conforming encoding (non-minimal ones included) *)
+Theorem C17_number_reads_every_conforming : forall b r v r',
+  is_byte b = true -> spec_number (b :: r) = Some (v, r') -> read_uint64 (b :: r) = Ok (v, r').
+Proof. exact gen_read_uint64_spec. Qed.
+Print Assumptions C17_number_reads_every_conforming.
+
+(* out-of-range values are rejected by the writer, not wrapped *)
+Theorem C17_number_rejects_out_of_range : forall v, v < 0 \/ 2^64 <= v -> write_uint64 v = Err EOther.
+Proof. exact gen_write_uint64_rejects. Qed.
+Print Assumptions C17_number_rejects_out_of_range.
+
+(* the written bytes are the minimal encoding and are bytes *)
+Theorem C17_number_minimal : forall v, 0 <= v < 2^64 ->
+  write_uint64 v = Ok (number_enc v) /\ wf_bytes (number_enc v) = true.
+Proof. intros v H. split; [exact (gen_write_uint64_eq v H) | exact (number_enc_wf v H)]. Qed.
+Print Assumptions C17_number_minimal.
+
+(* the known divergence on truncated input (unreachable behind the header CRC): recorded, not hidden *)
+Theorem C17_number_truncated_diverges : read_uint64 [192; 1] = Ok (1, []) /\ spec_number [192; 1] = None.
+Proof. exact read_uint64_truncated_diverges. Qed.
+Print Assumptions C17_number_truncated_diverges.
+
+(* boolean vectors of every length, both all-defined modes, undefined entries staying undefined *)
+Theorem C17_boolean_roundtrip : forall l c r, exists bs,
+  write_boolean l c = Ok bs /\ wf_bytes bs = true /\
+  read_boolean (bs ++ r) (py_len l) c = Ok (l, r) /\ boolvec_dec (length l) c (bs ++ r) = Some (l, r).
+Proof. exact gen_boolean_roundtrip. Qed.
+Print Assumptions C17_boolean_roundtrip.
+
+(* fixed-width fields *)
+Theorem C17_uint32_roundtrip : forall v r, 0 <= v < 2^32 -> exists bs,
+  write_uint32 v = Ok bs /\ length bs = 4%nat /\ read_uint32 (bs ++ r) = Ok ((v, bs), r).
+Proof. exact gen_uint32_roundtrip. Qed.
+Print Assumptions C17_uint32_roundtrip.
+
+Theorem C17_uint64_roundtrip : forall v r, 0 <= v < 2^64 -> exists bs,
+  write_real_uint64 v = Ok bs /\ length bs = 8%nat /\ read_real_uint64 (bs ++ r) = Ok ((v, bs), r).
+Proof. exact gen_real_uint64_roundtrip. Qed.
+Print Assumptions C17_uint64_roundtrip.
+
+Theorem C17_bits_to_bytes : forall n, bits_to_bytes n = Ok ((n + 7) / 8).
+Proof. exact gen_bits_to_bytes_all. Qed.
+Print Assumptions C17_bits_to_bytes.
+
+(* non-vacuity: a concrete non-trivial instance *)
+Example C17_number_example : write_uint64 (2^56) = Ok [255; 0; 0; 0; 0; 0; 0; 0; 1]
+  /\ read_uint64 [255; 0; 0; 0; 0; 0; 0; 0; 1; 7] = Ok (2^56, [7]).
+Proof. vm_compute. split; reflexivity. Qed.
